@@ -333,6 +333,27 @@ pub struct Freedoms {
 }
 
 impl Freedoms {
+    /// freedoms for volumes that operation histories start from: everything whose result is a finding-free volume with
+    /// names that can be typed (no orphan runs, no junk behind the end marker, no 0x05 lead byte, no OEM bytes)
+    pub fn for_histories(bits: u16) -> Freedoms {
+        let b = |i: u16| bits & (1 << i) != 0;
+        Freedoms {
+            fragmented: b(0),
+            backwards: b(1),
+            eoc_variants: b(2),
+            bad_clusters: b(3),
+            deleted_slots: b(4),
+            orphan_runs: false,
+            short_only: b(5),
+            nt_case_flags: b(6),
+            lead_05: false,
+            oem_bytes: false,
+            label_anywhere: b(7),
+            all_attrs: b(8),
+            junk_after_end: false,
+            extra_dir_clusters: b(9),
+        }
+    }
     pub fn count(&self) -> usize {
         [self.fragmented, self.backwards, self.eoc_variants, self.bad_clusters, self.deleted_slots, self.orphan_runs, self.short_only, self.nt_case_flags, self.lead_05, self.oem_bytes, self.label_anywhere, self.all_attrs, self.junk_after_end, self.extra_dir_clusters]
             .iter()
@@ -766,14 +787,27 @@ pub fn populate(st: &mut Store, entropy: &[u32], fr: &Freedoms, max_objects: usi
     let g = G2::parse(st)?;
     let mut pool = Pool::new(entropy);
     // free clusters, minus a few BAD ones
-    let mut free: Vec<u32> = (2..=g.max_cluster()).filter(|c| !(g.width == 32 && *c == g.raw.root_clus)).collect();
+    // (clusters the volume already marks as used or BAD are left alone: volumes with little free space stay that way)
+    let maxc = g.max_cluster();
+    let candidates: Vec<u32> = if maxc > 20_000 {
+        // big volumes: three windows (start, middle, very end) instead of a scan of the whole table
+        (2..2_002u32).chain(maxc / 2..maxc / 2 + 2_000).chain(maxc - 1_999..=maxc).collect()
+    } else {
+        (2..=maxc).collect()
+    };
+    let mut free: Vec<u32> = candidates.into_iter().filter(|c| !(g.width == 32 && *c == g.raw.root_clus) && g.fat(st, *c) == 0).collect();
+    if free.len() < 4 {
+        return Err("no room to populate".into());
+    }
     let near_limit = |n: u32| (n as i64 - 4085).abs() <= 16 || (n as i64 - 65525).abs() <= 16;
     if near_limit(g.max_cluster()) {
         // cluster count on a FAT-width limit: work at the two ends, so that chains use the highest cluster numbers
         let n = free.len();
-        let mut f2: Vec<u32> = free[..60].to_vec();
-        f2.extend_from_slice(&free[n - 60..]);
-        free = f2;
+        if n > 120 {
+            let mut f2: Vec<u32> = free[..60].to_vec();
+            f2.extend_from_slice(&free[n - 60..]);
+            free = f2;
+        }
     } else if free.len() > 3000 {
         // keep the working set small on big volumes: a window at the start, one in the middle, one at the very end
         let n = free.len();
